@@ -49,6 +49,7 @@ def valid_name(t):
 
 
 def entity_of(t):
+    """entity f"{parts[0]}.{parts[1]}" of a name (arity and parts of the join term follow from name_axioms_for)"""
     return join_fn(2)(part(t, 0), part(t, 1))
 
 
